@@ -30,6 +30,10 @@ SAMPLE_METHOD = '''    @decorated
 SAMPLE_PLAIN = '''def plain(x, y=3):
     return recurse(x)
 '''
+# a method of class K that reads a class-private attribute: inside the class body the compiler spells it _K__secret
+SAMPLE_PRIVATE = '''    def method(self, x):
+        return self.__secret + recurse(x)
+'''
 # code objects of lambdas / comprehensions in the signature come before the function's own among the constants
 SAMPLE_LAMBDA_DEFAULT = '''def plain(x, y=lambda v: [w for w in v]):
     return recurse(y(x))
@@ -72,6 +76,7 @@ SCENARIOS = {
     "method-with-closure-listed-otherwise": dict(source=SAMPLE_METHOD, freevars=("captured", "__class__"), first=40),
     "plain-function": dict(source=SAMPLE_PLAIN, freevars=(), first=7),
     "function-with-a-lambda-default": dict(source=SAMPLE_LAMBDA_DEFAULT, freevars=(), first=7),
+    "method-reading-a-private-attribute": dict(source=SAMPLE_PRIVATE, freevars=(), first=12, qualname="K.method", original_names=("_K__secret", "recurse")),
 }
 
 
@@ -104,7 +109,10 @@ def run(ctx, name):
         __kwdefaults__={"z": 4} if "z=4" in sc["source"] else None,
         __annotations__={"x": "ann"},
         __name__="method",
+        __qualname__=sc.get("qualname", "method"),
     )
+    if sc.get("original_names"):
+        fn.__code__.co_names = tuple(sc["original_names"])
     dispatch, table = Record(kind="entry point"), Record(kind="table")
     ov = Record(id=7, argument_analysis=Record(kind="analysis"), dispatch=dispatch, map=table, name="mod.f", shortname="f", __name__="f", __qualname__="f", __module__="mod")
     genv = {
@@ -137,7 +145,7 @@ def run(ctx, name):
 
 def check(ctx, name):
     out, failure, facts, sc = run(ctx, name)
-    problems = {"free-variables": [], "closure-cells": [], "carried-over": [], "planted-globals": []}
+    problems = {"free-variables": [], "closure-cells": [], "carried-over": [], "planted-globals": [], "private-names": []}
     if failure:
         for k in problems:
             problems[k].append(f"re-compiling the method {failure}")
@@ -165,6 +173,11 @@ def check(ctx, name):
         problems["carried-over"].append(f"the new function is called {out.__name__!r} / its code {out.__code__.co_name!r}, not the requested name")
     if out.__code__.co_argcount != (3 if "self" in sc["source"] else 2) or "recurse" not in out.__code__.co_names:
         problems["carried-over"].append("the new code is not the method's own definition (another code constant of the compiled tree - a lambda or comprehension of the signature - was taken)")
+    if sc.get("original_names"):
+        private = [n for n in sc["original_names"] if n.startswith("_K__")]
+        lost = [n for n in private if n not in out.__code__.co_names]
+        if lost:
+            problems["private-names"].append(f"the method's code reads {lost} (the compiler's spelling of a class-private name inside class K), the re-compiled code reads {[n for n in out.__code__.co_names if n.startswith('__') and not n.endswith('__')]}")
     # the names the rewriter was told are bound in the globals to entry point, table and the function's own code
     if len(facts["made"]) != 1:
         raise AnalysisError("the rewriter is not instantiated exactly once")
@@ -193,6 +206,7 @@ LAW_TEXT = {
     "free-variables": ("the re-compiled code has exactly the method's free variables, the class cell `__class__` included", "a re-compiled method that uses super() or a captured variable fails with 'cell not found' / NameError as soon as it runs"),
     "closure-cells": ("every free variable of the new code is given the method's own cell of that name", "the re-compiled method reads another variable's value"),
     "carried-over": ("the new function keeps the method's globals, defaults, keyword defaults, annotations and parameters and carries the requested name", "default arguments or annotations are lost when a method uses recurse / call_next"),
+    "private-names": ("class-private names (`self.__x` inside class K) keep the spelling the compiler gave them in the class", "a method that uses recurse / call_next and a private attribute raises AttributeError: the source is re-compiled outside its class and `__x` is no longer `_K__x`"),
     "planted-globals": ("each name the rewriter was told to emit is bound in the method's globals: to the entry point, the table, and the new function's own code", "the rewritten calls reach another function's entry point or table, or raise NameError"),
 }
 
@@ -202,9 +216,13 @@ def law(ctx, *names, scenarios=None):
     ctx.touch(rc)
     cache = ctx.cache.setdefault("recode_checked", {})
     for sc in scenarios or SCENARIOS:
+        if not any((name == "private-names") == (sc == "method-reading-a-private-attribute") for name in names):
+            continue
         if sc not in cache:
             cache[sc] = check(ctx, sc)
         for name in names:
+            if (name == "private-names") != (sc == "method-reading-a-private-attribute"):
+                continue
             text, why = LAW_TEXT[name]
             ps = cache[sc][name]
             ctx.ob(f"{rc.key}:{name}:{sc}", rc.loc(), f"[{sc}] {text} (re-compiler abstractly executed; tree compiled by the host compiler, nothing run)", not ps, "; ".join(ps[:2]) + ": " + why)
